@@ -550,14 +550,30 @@ fn alloc_counts(bpb: BiosParameterBlock, zero: bool) {
 }
 
 // @obl props=C05,C11,C20 tier=quick fns=FileSystem::alloc_cluster,FsInfoSector::map_free_clusters,FsInfoSector::set_next_free_cluster,write_zeros,FileSystem::offset_from_cluster
-// @desc FAT12/FAT16/FAT32 fixtures, forall in-range fs_info, prev, with table::alloc_cluster replaced by its contract: Ok(c) => cached free count decremented by exactly 1 (no underflow under inv_count), hint := c+1 <= total+2, fs_info dirty; zero=true => exactly cluster_size zero bytes written starting at offset_from_cluster(c) (inside cluster c); Err => counters and device untouched
+// @desc FAT12 fixture, forall in-range fs_info, prev, zero flag, with table::alloc_cluster replaced by its contract: Ok(c) => cached free count decremented by exactly 1 (no underflow under inv_count), hint := c+1 <= total+2, fs_info dirty; zero=true => exactly cluster_size zero bytes written starting at offset_from_cluster(c) (inside cluster c); Err => counters and device untouched
 #[kani::proof]
 #[kani::unwind(20)]
 #[kani::stub(crate::table::alloc_cluster, stub_alloc_cluster)]
-fn alloc_cluster_counts() {
-    let sel: u8 = kani::any();
-    kani::assume(sel < 3);
-    alloc_counts(sel_bpb(sel), kani::any());
+fn alloc_cluster_counts_fat12() {
+    alloc_counts(bpb_fat12(), kani::any());
+}
+
+// @obl props=C05,C11,C20 tier=quick fns=FileSystem::alloc_cluster,FsInfoSector::map_free_clusters,FsInfoSector::set_next_free_cluster,write_zeros,FileSystem::offset_from_cluster
+// @desc FAT16 fixture: contract of alloc_cluster_counts_fat12
+#[kani::proof]
+#[kani::unwind(20)]
+#[kani::stub(crate::table::alloc_cluster, stub_alloc_cluster)]
+fn alloc_cluster_counts_fat16() {
+    alloc_counts(bpb_fat16(), kani::any());
+}
+
+// @obl props=C05,C11,C20 tier=quick fns=FileSystem::alloc_cluster,FsInfoSector::map_free_clusters,FsInfoSector::set_next_free_cluster,write_zeros,FileSystem::offset_from_cluster
+// @desc FAT32 fixture: contract of alloc_cluster_counts_fat12
+#[kani::proof]
+#[kani::unwind(20)]
+#[kani::stub(crate::table::alloc_cluster, stub_alloc_cluster)]
+fn alloc_cluster_counts_fat32() {
+    alloc_counts(bpb_fat32(), kani::any());
 }
 
 pub(crate) fn stub_count_free<S, E>(_fat: &mut S, _fat_type: FatType, total_clusters: u32) -> Result<u32, Error<E>>
@@ -694,16 +710,21 @@ fn geom_fat_slice() {
     assert!(size == g.spf * bps);
     let fat_area_begin = reserved * bps;
     let fat_area_end = (reserved + fats * g.spf) * bps;
+    // device log: (seek, write) per copy, nothing else after the two slice-level seeks (which touch no device)
     if mirroring {
-        assert!(dev.nwrites as u64 == fats);
+        assert!(dev.nwrites as u64 == fats && dev.nlog as u64 == 2 * fats);
         let i: usize = kani::any();
         kani::assume((i as u64) < fats);
-        assert!(dev.nth_write(i) == Some((fat_area_begin + i as u64 * size, 1)));
+        assert!(dev.log[2 * i] == Op::Seek(fat_area_begin + i as u64 * size));
+        assert!(dev.log[2 * i + 1] == Op::Write(fat_area_begin + i as u64 * size, 1));
     } else {
-        assert!(dev.nwrites == 1);
-        assert!(dev.nth_write(0) == Some(((reserved + active * g.spf) * bps, 1)));
+        assert!(dev.nwrites == 1 && dev.nlog == 2);
+        assert!(dev.log[1] == Op::Write((reserved + active * g.spf) * bps, 1));
     }
-    let (p, _) = dev.nth_write(0).unwrap();
+    let p = match dev.log[1] {
+        Op::Write(p, _) => p,
+        _ => 0,
+    };
     assert!(p >= fat_area_begin && p < fat_area_end);
     assert!(fat_area_end <= g.first_data * bps);
     kani::cover!(mirroring && fats == 3);
@@ -852,30 +873,117 @@ fn oem_lossy_converter() {
     kani::cover!(b >= 0x80);
 }
 
-// @obl props=C06,C05 tier=quick fns=write_zeros,write_zeros_until_end_of_sector
-// @bound bounded: len <= 1536 (3 chunks) / sector sizes 512..4096 with <= 8 chunks; unbounded version: Verus unit fs_zeros
-// @desc write_zeros writes exactly len bytes, all zero, in chunks of at most 512, starting at the current position; write_zeros_until_end_of_sector pads exactly to the next sector boundary and writes nothing when already aligned
-#[kani::proof]
-#[kani::unwind(10)]
-fn write_zeros_contract() {
+fn zeros_case(len: u64) {
     let mut dev = NdDev::new();
     let start: u64 = kani::any();
     kani::assume(start < 1u64 << 40);
     dev.pos = start;
-    let len: u64 = kani::any();
-    kani::assume(len <= 1536);
     assert!(write_zeros(&mut dev, len).is_ok());
     assert!(dev.pos == start + len && dev.all_written_zero);
     assert!(dev.nwrites as u64 == (len + 511) / 512);
-    let bps: u16 = kani::any();
-    kani::assume(bps == 512 || bps == 1024 || bps == 2048 || bps == 4096);
-    let mut dev2 = NdDev::new();
-    dev2.pos = start;
-    assert!(write_zeros_until_end_of_sector(&mut dev2, bps).is_ok());
-    assert!(dev2.pos % bps as u64 == 0 && dev2.pos - start < bps as u64 && dev2.all_written_zero);
-    if start % bps as u64 == 0 {
-        assert!(dev2.nwrites == 0);
+}
+
+fn pad_case(bps: u16, rem: u64) {
+    let mut dev = NdDev::new();
+    let k: u64 = kani::any();
+    kani::assume(k < 1u64 << 28);
+    let start = k * bps as u64 + rem;
+    dev.pos = start;
+    assert!(write_zeros_until_end_of_sector(&mut dev, bps).is_ok());
+    assert!(dev.pos % bps as u64 == 0 && dev.pos - start < bps as u64 && dev.all_written_zero);
+    if rem == 0 {
+        assert!(dev.nwrites == 0 && dev.pos == start);
+    } else {
+        assert!(dev.pos == start + (bps as u64 - rem));
     }
-    kani::cover!(len == 1536);
-    kani::cover!(start % 4096 == 1 && bps == 4096);
+}
+
+// @obl props=C06,C05 tier=quick fns=write_zeros,write_zeros_until_end_of_sector
+// @bound bounded: lengths {0, 513, 4096} and (sector size, remainder) in {(512,0), (512,90), (4096,4095)}; start position symbolic; unbounded version: Verus unit fs_zeros
+// @desc write_zeros writes exactly len bytes, all zero, in chunks of at most 512, starting at the current position; write_zeros_until_end_of_sector pads exactly to the next sector boundary and writes nothing when already aligned
+#[kani::proof]
+#[kani::unwind(12)]
+fn write_zeros_contract() {
+    let sel: u8 = kani::any();
+    match sel {
+        0 => zeros_case(0),
+        1 => zeros_case(513),
+        2 => zeros_case(4096),
+        3 => pad_case(512, 0),
+        4 => pad_case(512, 90),
+        _ => pad_case(4096, 4095),
+    }
+    kani::cover!(sel == 2);
+    kani::cover!(sel == 4);
+}
+
+// ------------------------------------------------------------------------------------------------
+// mounting (C07, C13)
+// ------------------------------------------------------------------------------------------------
+
+// @obl props=C07,C13,C05 tier=quick fns=FileSystem::new,BootSector::deserialize,BootSector::validate,FsInfoSector::deserialize,FsInfoSector::validate_and_fix timeout=900
+// @desc FileSystem::new over a write-forbidden device that returns ARBITRARY bytes for the boot sector and the FS-info sector, strict and non-strict: returns Ok or Err(CorruptedFileSystem) (no fault is injected), never panics or overflows, never writes; on Ok the volume geometry satisfies wf_bpb, the cached FAT type / first data sector / root sectors / cluster count are the derived ones, the FS-info write-back latch is clear, the cached free count is dropped if the dirty bit was set and otherwise <= total clusters, the hint lies in [2, total+2], and the in-memory status flags equal the mount-time byte
+#[kani::proof]
+#[kani::unwind(482)]
+fn new_total() {
+    let dev = NdDev::read_only();
+    let mut o = opts(false, SymTime::any());
+    o.strict = kani::any();
+    let r = FileSystem::new(dev, o);
+    match &r {
+        Ok(fs) => {
+            assert!(crate::boot_sector::verif_kani::wf_bpb(&fs.bpb));
+            let g = crate::boot_sector::verif_kani::geo(&fs.bpb).unwrap();
+            assert!(fs.total_clusters as u64 == g.clusters && fs.first_data_sector as u64 == g.first_data);
+            assert!(fs.root_dir_sectors as u64 == g.root_secs);
+            assert!(fs.fat_type == FatType::from_clusters(fs.total_clusters));
+            assert!((fs.fat_type == FatType::Fat32) == g.fat32);
+            let info = fs.fs_info.borrow();
+            assert!(!info.dirty);
+            assert!(fs_info_in_range(&info, fs.total_clusters));
+            if fs.bpb.reserved_1 & 1 != 0 {
+                assert!(info.free_cluster_count.is_none());
+            }
+            if !g.fat32 {
+                assert!(info.free_cluster_count.is_none() && info.next_free_cluster.is_none());
+            }
+            assert!(fs.current_status_flags.get() == FsStatusFlags::decode(fs.bpb.reserved_1));
+            assert!(fs.disk.borrow().nwrites == 0);
+        }
+        Err(e) => assert!(matches!(e, Error::CorruptedFileSystem)),
+    }
+    kani::cover!(matches!(&r, Ok(fs) if fs.fat_type == FatType::Fat32 && fs.bpb.reserved_1 & 1 != 0));
+    kani::cover!(matches!(&r, Ok(fs) if fs.fat_type == FatType::Fat12));
+    kani::cover!(r.is_err());
+    if let Ok(fs) = r {
+        core::mem::forget(fs);
+    }
+}
+
+// @obl props=C04,C05,C11 tier=quick fns=FileSystem::flush_fs_info,FileSystem::unmount_internal,FileSystem::offset_from_sector timeout=900
+// @desc for EVERY validated FAT32 BPB (every sector size 512..4096, every FS-info sector number below the reserved count) with a dirty FS-info cache: unmount seeks to fs_info_sector * bytes_per_sector - where mount reads it from - and writes exactly 512 bytes there (7 writes: signature, 480 zeros, signature, count, hint, 12 zeros, signature), inside the reserved area; then the status byte
+#[kani::proof]
+#[kani::unwind(10)]
+fn unmount_fsinfo_location() {
+    let bpb = any_valid_bpb();
+    kani::assume(bpb.is_fat32());
+    let bps = bpb.bytes_per_sector as u64;
+    let want = bpb.fs_info_sector as u64 * bps;
+    let reserved_end = bpb.reserved_sectors as u64 * bps;
+    let mut info = any_fs_info();
+    info.dirty = true;
+    let cur = FsStatusFlags::decode(bpb.reserved_1);
+    let fs = mk_fs(NdDev::new(), bpb, info, cur, opts(false, SymTime::fixed()));
+    assert!(fs.unmount_internal().is_ok());
+    {
+        let d = fs.disk.borrow();
+        assert!(d.log[0] == Op::Seek(want));
+        assert!(d.log[1] == Op::Write(want, 4));
+        assert!(d.log[2] == Op::Write(want + 4, 480));
+        assert!(d.log[7] == Op::Write(want + 508, 4));
+        assert!(d.nwrites == 7 && d.nlog == 8);
+        assert!(want + 512 <= reserved_end);
+    }
+    kani::cover!(bps == 4096 && want == 3 * 4096);
+    core::mem::forget(fs);
 }
